@@ -302,6 +302,10 @@ class Expander:
             elif isinstance(s, (ast.For, ast.While)) and not in_unstructured and self._loop_convertible(s):
                 if not self._returns_structured(s.orelse, in_unstructured):
                     return False
+            elif isinstance(s, ast.Try) and not in_unstructured and not s.finalbody and not s.orelse and s is not stmts[-1] \
+                    and self._contains_return(s.body) and not any(self._contains_return(h.body) for h in s.handlers):
+                if not self._returns_structured(s.body, in_unstructured):
+                    return False
             elif isinstance(s, ast.Try) and not in_unstructured and not s.finalbody and s is stmts[-1]:
                 # a try statement that ends its block: `return e` inside it becomes `r = e` and control leaves the try
                 for blk in [s.body, s.orelse] + [h.body for h in s.handlers]:
@@ -595,6 +599,24 @@ class Expander:
                     new = ast.While(test=s.test, body=body, orelse=o)
                 out.append(ast.copy_location(new, s))
                 return out, orr
+            if isinstance(s, ast.Try) and not s.finalbody and not s.orelse and self._contains_return(s.body) \
+                    and (stmts[i + 1:] or cont) and not any(self._contains_return(h.body) for h in s.handlers):
+                # `try: return e  except K: <recover>` followed by more code: the code that follows runs only after a handler,
+                # so it is placed at the end of every handler
+                b, br = self._convert_returns(list(s.body), rname, [])
+                if b is None or not br:
+                    return None, False
+                k = list(stmts[i + 1:]) + list(cont)
+                hs, hall = [], True
+                for h in s.handlers:
+                    hb, hr = self._convert_returns(list(h.body), rname, k)
+                    if hb is None:
+                        return None, False
+                    ends = bool(hb) and isinstance(hb[-1], ast.Raise)
+                    hall = hall and (hr or ends)
+                    hs.append(ast.copy_location(ast.ExceptHandler(type=h.type, name=h.name, body=hb or [ast.Pass()]), h))
+                out.append(ast.copy_location(ast.Try(body=b, handlers=hs, orelse=[], finalbody=[]), s))
+                return out, hall
             if isinstance(s, ast.Try) and not s.finalbody and self._contains_return([s]) and i == len(stmts) - 1 and not cont:
                 b, br = self._convert_returns(list(s.body), rname, [])
                 o, orr = self._convert_returns(list(s.orelse), rname, []) if s.orelse else ([], br)
@@ -996,6 +1018,21 @@ class Expander:
         for k, v in binds.items():
             if len(v) == 1 and v[0] is not None and _is_literal(v[0]) and k not in glob and not (k.startswith('__') and k.endswith('__')):
                 out[k] = v[0]
+        # names bound once to an expression over literals and such constants (CONST_A + 'xyz', '%s...' % CONST): folded
+        from . import astutil as A
+        for _ in range(2):
+            env = {}
+            for k, node in out.items():
+                val = A.const_value(node)
+                if val is not NotImplemented:
+                    env[k] = val
+            for k, v in binds.items():
+                if k in out or len(v) != 1 or v[0] is None or k in glob or (k.startswith('__') and k.endswith('__')):
+                    continue
+                if isinstance(v[0], (ast.BinOp, ast.JoinedStr)):
+                    ok, val = A.const_eval(v[0], env)
+                    if ok and isinstance(val, (str, int)) and not isinstance(val, bool):
+                        out[k] = ast.copy_location(ast.Constant(value=val), v[0])
         return out
 
     def class_constants(self):
@@ -1475,15 +1512,20 @@ class Expander:
         """`for a, b in TABLE: if C(a): S(a, b); break` [else: E]  ->  if C(a1): S(a1, b1) elif C(a2): ... else: E
         (TABLE a constant table of the package; rows substituted for the loop variables)."""
         tables = self.const_tables()
-        if not tables:
-            return
         exp = self
+
+        def simple(e):
+            return isinstance(e, (ast.Constant, ast.Name)) or (isinstance(e, ast.Attribute) and exp._pure_chain(e))
 
         def rows_of(e):
             if isinstance(e, ast.Name) and e.id in tables:
                 return tables[e.id]
             if isinstance(e, ast.Attribute) and e.attr in tables and isinstance(e.value, ast.Name):
                 return tables[e.attr]
+            if isinstance(e, (ast.Tuple, ast.List)) and 1 <= len(e.elts) <= 16 and all(
+                    isinstance(r, (ast.Tuple, ast.List)) and r.elts and all(simple(x) for x in r.elts) for r in e.elts) \
+                    and len({len(r.elts) for r in e.elts}) == 1:
+                return [list(r.elts) for r in e.elts]
             return None
 
         def rewrite(stmts):
@@ -1508,8 +1550,42 @@ class Expander:
                     and isinstance(body[0].body[-1], ast.Break) \
                     and not any(isinstance(x, (ast.Break, ast.Continue)) for st in body[0].body[:-1] for x in ast.walk(st))
                 stored = {x.id for st in body for x in ast.walk(st) if isinstance(x, ast.Name) and isinstance(x.ctx, ast.Store)}
-                if not shape or stored & set(tnames):
+                row_names = {x.id for row in rows for el in row for x in ast.walk(el) if isinstance(x, ast.Name)}
+                if stored & (set(tnames) | row_names):
                     out.append(s)
+                    continue
+                if not shape:
+                    # no break / continue of this loop at all: the body once per row, then the else clause
+                    jumps = False
+                    def scan(stmts):
+                        nonlocal jumps
+                        for st in stmts:
+                            if isinstance(st, (ast.Break, ast.Continue)):
+                                jumps = True
+                            elif not isinstance(st, (ast.For, ast.While, ast.FunctionDef, ast.ClassDef)):
+                                for sub in ('body', 'orelse', 'finalbody'):
+                                    if isinstance(getattr(st, sub, None), list):
+                                        scan(getattr(st, sub))
+                                for h in getattr(st, 'handlers', []) or []:
+                                    scan(h.body)
+                    scan(body)
+                    if jumps:
+                        out.append(s)
+                        continue
+                    for row in rows:
+                        m = dict(zip(tnames, row))
+
+                        class Sub2(ast.NodeTransformer):
+                            def visit_Name(self, node):
+                                if node.id in m and isinstance(node.ctx, ast.Load):
+                                    return ast.copy_location(copy.deepcopy(m[node.id]), node)
+                                return node
+                        for x in body:
+                            n2 = Sub2().visit(copy.deepcopy(x))
+                            ast.fix_missing_locations(n2)
+                            out.append(n2)
+                    out.extend(s.orelse)
+                    exp.stats['table_loops'] = exp.stats.get('table_loops', 0) + 1
                     continue
                 chain_else = list(s.orelse)
                 for row in reversed(rows):
@@ -1917,6 +1993,12 @@ def expand_modules(modules):
             if hasattr(n, '_parent'):
                 del n._parent
     return Expander(modules, load_baseline()).run()
+
+
+def resubstitute_constants(modules):
+    e = Expander(modules, load_baseline())
+    e.collect()
+    e.substitute_constants()
 
 
 def write_baseline(repo):
